@@ -32,6 +32,9 @@ type Case struct {
 
 func genCase(t *rapid.T) (Case, *env.Env) {
 	tg := gen.Target(t, assetgen.Opts{AllowText: true, AllowThumb: true, VStart: true}, 35, nil)
+	if tg.Layout != nil {
+		tg.Layout.ASCodecs = rapid.IntRange(0, 2).Draw(t, "as-codecs") == 0 // @codecs on the AdaptationSet instead of the Representation
+	}
 	e, err := env.Get(tg)
 	if err != nil {
 		t.Fatalf("HARNESS: %v", err)
